@@ -421,7 +421,9 @@ struct FlatSetEngine : EngineBase {
         size_t l = f + rng.below(static_cast<uint32_t>(m.size() - f + 1));
         set_op("erase(first,last)", st(a), f == l ? "empty" : "nonempty", fmt("S%d [%zu,%zu)", a, f, l));
         long got = -1;
+        g_selfmove_poison = true;  // see smallset_main.hpp
         window([&] { got = idx(s, s.erase(s.begin() + f, s.begin() + l)); });
+        g_selfmove_poison = false;
         MonScope mm;
         auto i1 = m.begin(), i2 = m.begin();
         std::advance(i1, f);
